@@ -135,11 +135,11 @@ def same_source_rules(ctx, rid, fn):
             for t, pol, o in g.edge_dominators(na):
                 pf = positive_form(t, pol)
                 for c_ in ast.walk(pf):
-                    if isinstance(c_, ast.Compare) and len(c_.ops) == 1 and src(c_.left) == 'type(%s)' % arg:
-                        r_ = c_.comparators[0]
+                    if isinstance(c_, ast.Compare) and len(c_.ops) == 1 and 'type(%s)' % arg in (src(c_.left), src(c_.comparators[0])):
+                        r_ = c_.comparators[0] if src(c_.left) == 'type(%s)' % arg else c_.left
                         if isinstance(c_.ops[0], (ast.Eq, ast.Is)):
                             got.add(src(r_).split('.')[-1])
-                        elif isinstance(c_.ops[0], ast.In) and isinstance(r_, (ast.Tuple, ast.List, ast.Set)):
+                        elif isinstance(c_.ops[0], ast.In) and isinstance(r_, (ast.Tuple, ast.List, ast.Set)) and r_ is c_.comparators[0]:
                             got |= {src(e).split('.')[-1] for e in r_.elts}
             okm = want <= got and got <= {'QUSOMatrix', 'PUSOMatrix'}
             ctx.inst(rid, fn, 'Matrix classes of the Matrix branch', okm,
